@@ -9,7 +9,7 @@ SPEC_B = os.path.join(core.VERIF, "specs", "BlockQuery")
 DRIVER = os.path.join(core.VERIF, "harness", "overlay", "neutrino", "zz_verif_queries_test.go")
 PKG = core.REPO
 
-READY = False
+READY = True
 PROPERTIES = ["C05", "C06"]
 
 MANIFEST = {
@@ -28,13 +28,17 @@ MANIFEST = {
              "FilterQueryProps.tla are evaluated by TLC on the observed traces: the returned filter is recomputed "
              "against the filter headers the real store committed, FilterCache.Range / FilterDB.FetchFilter / "
              "batch-writer hand-offs may only ever gain the true filter of the block a first-time, in-range, "
-             "well-formed response is about.",
+             "well-formed response is about. In addition free-running scenarios drive GetCFilter through the REAL "
+             "query.WorkManager (dispatcher + workers) with scripted mock peers; every handler invocation is recorded "
+             "with the projected state and the recorded trace must be a behaviour of the specification (walk of TLC's "
+             "state graph) and satisfy the same Props.",
         note="Bounded: chain of <=6 blocks, <=2 callers, caps <=3; stream length unbounded (bad responses are "
              "self-loops of the state graph). Trusts TLC, btcd's gcs builder for the TRUE filters (cross-checked "
              "against the harness' own filter-header hash), and that a dispatcher calls HandleResp sequentially per "
              "request and reports one verdict (that is C12's subject). Cache eviction (cache smaller than a batch) "
              "and database read errors are not modelled.",
-        design="4 C05", technique="TLA+ spec + TLC exhaustive + spec-to-code replay of every transition + TLC-judged observed traces"),
+        design="4 C05", technique="TLA+ spec + TLC exhaustive + spec-to-code replay of every transition + free-running traces "
+                                  "(real work manager) validated against TLC's state graph + TLC-judged observed traces"),
     "C06": dict(
         engine="BlockQuery",
         text="Exhaustive TLC exploration of specs/BlockQuery (GetBlock as HeaderLookup / CacheLookup / Submit / one "
@@ -48,11 +52,15 @@ MANIFEST = {
              "returned block has the requested header hash, reproduces the merkle root and has a valid witness "
              "commitment (recomputed by the harness' own code, not btcd's); invalid-under-requested-header responses "
              "ban their sender and never finish the request; other responses change neither bans nor cache; only the "
-             "intact requested block is cached.",
+             "intact requested block is cached. In addition free-running scenarios drive GetBlock through the REAL "
+             "query.WorkManager with scripted mock peers that serve invalid / unrelated / intact blocks and disconnect "
+             "or time out (the retry with other peers happens for real); the recorded traces must be behaviours of "
+             "the specification and satisfy the same Props.",
         note="Bounded: <=3 known blocks, <=4 peers, <=3 calls. Witness encoding only (the default); retry with other "
              "peers itself is the dispatcher's job (C12) - here the Progress values that trigger it are checked. Trusts "
              "TLC and the harness' own merkle / witness-commitment code (cross-checked against btcd on the intact blocks).",
-        design="4 C06", technique="TLA+ spec + TLC exhaustive + spec-to-code replay of every transition + TLC-judged observed traces"),
+        design="4 C06", technique="TLA+ spec + TLC exhaustive + spec-to-code replay of every transition + free-running traces "
+                                  "(real work manager) validated against TLC's state graph + TLC-judged observed traces"),
 }
 
 PROPS = {
